@@ -470,7 +470,7 @@ class C14(Spec):
                     "floating point: the upper-bound arithmetic is executed in Float (bit-compared with the code) but the theorem about it is in exact arithmetic"]
     assumptions = ["theorems are about DSModel/CountMin/Basic.lean; the tie to count_min_impl.hpp is differential (sampled)",
                    "exact arithmetic in the weight type: no int64/uint64 overflow, doubles without rounding (the generators keep to such values)",
-                   "1 <= num_hashes (num_hashes = 0 is accepted by the constructor and get_estimate is then undefined; outside the property's range)",
+                   "1 <= num_hashes (num_hashes = 0 was accepted by the pinned constructor with get_estimate undefined; rejected since fix a8816d6; outside the property's range either way)",
                    "the probabilistic sub-claim (over-estimate > eps*total with frequency <= 1-confidence) is not decided (DESIGN.md section 5)"]
 
     # ---- generators
